@@ -21,15 +21,17 @@ try:
         for c in m['checks']:
             t0 = time.time()
             env = dict(os.environ, VERIF_REPO=WT, VERIF_DIR='/verif')
-            r = subprocess.run(['./vcheck', c], cwd='/verif', env=env, capture_output=True, text=True)
+            r = subprocess.run(['./vcheck', c], cwd='/verif', env=env, capture_output=True, text=True, errors='replace')
             sig = [l for l in r.stdout.splitlines() if l.startswith('VIOLATION')]
             print('%-40s %s exit=%d %.0fs %s' % (m['name'], c, r.returncode, time.time() - t0, sig[:2] if sig else r.stdout[-300:].replace('\n', ' | ')), flush=True)
-            results.append((m['name'], c, r.returncode))
+            results.append({'mutation': m['name'], 'file': m['file'], 'check': c, 'exit': r.returncode, 'seconds': round(time.time() - t0), 'signatures': sorted(set(l.split('sig=')[-1] for l in sig))[:4], 'note': m.get('note', '')})
             for l in sig:
                 rp = [f[7:] for f in l.split() if f.startswith('replay=')]
                 for f in rp:
-                    if f.startswith('/verif/replay/C') and os.path.exists(f):
+                    if f.startswith('/verif/replay/C') and os.path.exists(f) and '/known/' not in f and '/regress/' not in f:
                         os.remove(f)
         open(p, 'w').write(s)
 finally:
     subprocess.run(['git', '-C', '/repo', 'worktree', 'remove', '--force', WT], capture_output=True)
+if not flt:
+    json.dump(results, open('/verif/tools/sens-results.json', 'w'), indent=1)
